@@ -301,7 +301,7 @@ func C20(tier string) {
 	// (2) the analysis under the race detector.
 	nProgs, optN := 2, 3
 	if tier == "thorough" {
-		nProgs, optN = 12, len(optionSets)
+		nProgs, optN = 4, len(optionSets)
 	}
 	links := gen.AllLinks(nil, []string{"conc", "guard"})
 	r := core.NewRNG(run.SeedV, "c20-"+tier)
